@@ -23,7 +23,8 @@ CFG = dict(
     driver_args=lambda ctx, n, seed: ["-test.run", "^TestVerifC24$", "-test.count=1", "-verif.n", n, "-verif.seed", seed],
     rule="each case: one real snapcache.Cache (MaxBatchSize 1..100) fed event lists (update lists incl. unchanged values, "
          "blind deletes, nil values with non-delete type, resync 'new' for held keys, TTLs, v3 resources; status changes) "
-         "through its real batching/publishing code, and 1-3 real server connections over net.Pipe to the real syncclient "
+         "through its real batching/publishing code, and 1-3 real server connections (one after the other, or two open at the "
+         "same time sharing the cache and the pre-built snapshot) over net.Pipe to the real syncclient "
          "(streamed snapshot or pre-built snappy snapshot of an older crumb, MaxMessageSize 1..100), each reading on a "
          "random schedule (held-back callbacks while more crumbs are published, virtual-time gaps that drive the "
          "coalescing of crumbs) until drained; boundary streams (statuses only, the same value repeated so that nearly every "
